@@ -324,6 +324,18 @@ pub struct Case {
 const LEVELS: usize = 11;
 const EXTRA_NAMES: [&str; 5] = ["x-ext", "zzz", "Aaa", "_x", "signed"];
 
+/// member name(s) for an injection: one of EXTRA_NAMES, or (a third of the time) a pair of names
+/// whose order differs between code points and UTF-16 code units (U+FF45 vs U+1F37A), as another
+/// implementation signing in code-point order would place them
+fn extra_names(n: u8) -> Vec<&'static str> {
+    let i = n as usize % (EXTRA_NAMES.len() + 2);
+    if i < EXTRA_NAMES.len() {
+        vec![EXTRA_NAMES[i]]
+    } else {
+        vec!["\u{ff45}-ext", "\u{1f37a}-ext"]
+    }
+}
+
 fn extra_value(i: u8) -> Value {
     match i % 6 {
         0 => json!(1),
@@ -373,12 +385,14 @@ fn build(case: &Case, delegation_extras: bool) -> forge::Built {
                 signed["delegations"]["x-deleg-ext"] = json!("kept?");
             }
             for (level, n, v) in &extras {
-                let name = EXTRA_NAMES[*n as usize % EXTRA_NAMES.len()];
+                let names = extra_names(*n);
                 let val = extra_value(*v);
                 let put = |o: &mut Value| {
                     if let Some(m) = o.as_object_mut() {
-                        if !m.contains_key(name) {
-                            m.insert(name.to_string(), val.clone());
+                        for name in &names {
+                            if !m.contains_key(*name) {
+                                m.insert(name.to_string(), val.clone());
+                            }
                         }
                     }
                 };
@@ -461,7 +475,7 @@ pub fn prop_with(case: &Case, known_deleg: bool) -> Outcome {
     }
     for (level, n, v) in &case.extras {
         // every injected member must be exposed in the matching _extra map
-        let name = EXTRA_NAMES[*n as usize % EXTRA_NAMES.len()];
+        let names = extra_names(*n);
         let val = extra_value(*v);
         let seen = match *level as usize % LEVELS {
             0 => Some(&base["root"]["extra"]),
@@ -479,9 +493,14 @@ pub fn prop_with(case: &Case, known_deleg: bool) -> Outcome {
         };
         if let Some(m) = seen {
             // the first injection of a name at a level wins; only check presence
-            if m.get(name).is_none() {
-                o.fail(format!("unknown member {name:?} = {val} at level {level} was signed but is not carried along: {m}"));
-                return o;
+            for name in &names {
+                if m.get(*name).is_none() {
+                    o.fail(format!("unknown member {name:?} = {val} at level {level} was signed but is not carried along: {m}"));
+                    return o;
+                }
+            }
+            if names.len() > 1 {
+                o.label("extras-across-utf16-planes");
             }
         }
     }
@@ -687,7 +706,7 @@ pub fn prop_with(case: &Case, known_deleg: bool) -> Outcome {
 }
 
 fn case_strategy() -> impl Strategy<Value = Case> {
-    (any::<bool>(), prop::collection::vec((0u8..LEVELS as u8, 0u8..5, 0u8..6), 0..8), any::<bool>(), prop::bool::weighted(0.3))
+    (any::<bool>(), prop::collection::vec((0u8..LEVELS as u8, 0u8..7, 0u8..6), 0..8), any::<bool>(), prop::bool::weighted(0.3))
         .prop_map(|(consistent, extras, custom, hash_prefix_delegation)| Case { consistent, extras, custom, hash_prefix_delegation })
 }
 
@@ -698,10 +717,10 @@ pub fn check(ctx: &Ctx) -> Vec<PartReport> {
         ctx,
         PartSpec {
             name: "mutants",
-            rule: "random forged repositories (root chain of two, one key shared by timestamp / snapshot / targets / delegated role, custom data on targets, glob or hash-prefix delegation) with 0..7 unknown members of random JSON shape injected before signing at 11 object levels (root top level, roles.targets, roles.root, timestamp/snapshot top level, their meta entries, targets top level, target entries, hashes, delegated role top level). For each of root, timestamp, snapshot, targets and the delegated role: four neutral rewrites (pretty-printed; members re-ordered and re-spaced; an extra signature entry by an unknown key; every string spelled with \\uXXXX escapes as ASCII-only writers do: must load and expose the same content) and EVERY single-point mutation of the signed portion (change of each scalar, member insertion at each object, deletion of each member, duplication of each scalar member with another value before/after, array element deletion/duplication/swap), served with the original signatures; plus six role swaps between documents sharing a key. Evaluations count mutants. Oracle: Ok => the content exposed through public fields equals that of the signed original. Non-trivial: every case; distinct = (extras, flags)",
+            rule: "random forged repositories (root chain of two, one key shared by timestamp / snapshot / targets / delegated role, custom data on targets, glob or hash-prefix delegation) with 0..7 unknown members of random JSON shape (names include a pair whose code-point order and UTF-16 order differ) injected before signing at 11 object levels (root top level, roles.targets, roles.root, timestamp/snapshot top level, their meta entries, targets top level, target entries, hashes, delegated role top level). For each of root, timestamp, snapshot, targets and the delegated role: four neutral rewrites (pretty-printed; members re-ordered and re-spaced; an extra signature entry by an unknown key; every string spelled with \\uXXXX escapes as ASCII-only writers do: must load and expose the same content) and EVERY single-point mutation of the signed portion (change of each scalar, member insertion at each object, deletion of each member, duplication of each scalar member with another value before/after, array element deletion/duplication/swap), served with the original signatures; plus six role swaps between documents sharing a key. Evaluations count mutants. Oracle: Ok => the content exposed through public fields equals that of the signed original. Non-trivial: every case; distinct = (extras, flags)",
             mode: Mode::Random { cases: n, strategy: Box::new(|| bx(case_strategy())) },
             prop: Box::new(move |c: &Case| prop_with(c, known)),
-            require: vec![("has-unknown-members", n as u64 / 2), ("swap", n as u64 / 2), ("mutant-accepted-without-effect", n as u64 / 2)],
+            require: vec![("has-unknown-members", n as u64 / 2), ("swap", n as u64 / 2), ("mutant-accepted-without-effect", n as u64 / 2), ("extras-across-utf16-planes", n as u64 / 6)],
         },
     )];
     if ctx.tier == crate::engine::Tier::Thorough && !ctx.stop.load(std::sync::atomic::Ordering::Relaxed) {
